@@ -507,6 +507,10 @@ fn interface_def<'a>(input: &mut &'a [u8]) -> ModalResult<Interface<'a>, InputEr
             Error(Error<'a>),
         }
 
+        // What is left is either a complete member or not part of the interface at all: a
+        // member that fails to parse must not be skipped, so leave it in the input for the caller
+        // to report.
+        let checkpoint = *input;
         let result = alt((
             type_def.map(ParsedMember::Custom),
             method_def.map(ParsedMember::Method),
@@ -518,7 +522,10 @@ fn interface_def<'a>(input: &mut &'a [u8]) -> ModalResult<Interface<'a>, InputEr
             Ok(ParsedMember::Custom(custom_type)) => custom_types.push(custom_type),
             Ok(ParsedMember::Method(method)) => methods.push(method),
             Ok(ParsedMember::Error(error)) => errors.push(error),
-            Err(_) => break,
+            Err(_) => {
+                *input = checkpoint;
+                break;
+            }
         }
     }
 
